@@ -10,6 +10,7 @@ import (
 	"bytes"
 	"fmt"
 	"io"
+	"math"
 	"sort"
 	"strings"
 
@@ -546,6 +547,61 @@ func init() {
 			}
 			return out
 		}})
+	// S19: the metric objects returned by NewDistance are shared singletons, documented as
+	// safe for concurrent use: three goroutines preprocess different vectors with the cosine
+	// metric at the same time (twice each; the first calls of a process included); every
+	// result is the unit vector along ITS argument and stays that after the others are done
+	for _, prop := range []string{"C11", "C18"} {
+		vScenarios = append(vScenarios, &vScenario{Prop: prop, Name: "metric/S19-concurrent-cosine-preprocess",
+			Body: func(x *vSchedExec) {
+				dist, _ := NewDistance(Cosine)
+				ins := [][]float32{{3, 4}, {0, -2}, {5, 12, 0}, {1, 0}, {-8, 6}, {0, 0, 7}}
+				outs := make([][]float32, len(ins))
+				for t := 0; t < 3; t++ {
+					t := t
+					name := string(rune('A' + t))
+					x.Spawn(name, func() {
+						for j := 0; j < 2; j++ {
+							i := 2*t + j
+							x.Op(name, fmt.Sprintf("Preprocess(%d)", i), func() ([]uint32, error) {
+								o, err := dist.Preprocess(vCopyVec(ins[i]))
+								outs[i] = o
+								return nil, err
+							})
+						}
+					})
+				}
+				x.Join()
+				x.Op("main", "Inspect", func() ([]uint32, error) {
+					var bad []uint32
+					for i, o := range outs {
+						n := vNorm64(ins[i])
+						ok := len(o) == len(ins[i])
+						for j := range o {
+							if ok && math.Abs(float64(o[j])-float64(ins[i][j])/n) > 1e-6 {
+								ok = false
+							}
+						}
+						if !ok {
+							bad = append(bad, uint32(i+1))
+						}
+					}
+					return bad, nil
+				})
+			},
+			Judge: func(x *vSchedExec) [][3]string {
+				var out [][3]string
+				for _, e := range x.events {
+					if e.Err != "" {
+						out = append(out, [3]string{"spurious-failure", e.Op, e.Err})
+					}
+					if e.Op == "Inspect" && len(e.IDs) > 0 {
+						out = append(out, [3]string{"preprocessed-vector-overwritten-by-a-concurrent-call", "", fmt.Sprintf("results %v (1-based) are not the unit vectors of their arguments after three goroutines preprocessed concurrently", e.IDs)})
+					}
+				}
+				return out
+			}})
+	}
 	vInitStoreScenarios()
 }
 
@@ -766,7 +822,7 @@ func vInitStoreScenarios() {
 			}
 		},
 		Judge: func(x *vSchedExec) [][3]string { return vStoreJudge(x, nil, vNoErr) }}, "C11", "C08")
-	// T6: an id whose document sits in a segment is (tried to be) removed and then added
+	// T8: an id whose document sits in a segment is (tried to be) removed and then added
 	// again while a compaction of the segments runs. Both segments were loaded (cached) by a
 	// search beforehand, so the compaction decodes nothing while the add runs. After the
 	// threads and the background work are done, the store's loaded index objects are probed
@@ -774,7 +830,7 @@ func vInitStoreScenarios() {
 	// the known shared-template mechanism): an acknowledged re-add that is already gone at
 	// that point, without any segment having been decoded since it was called, and that the
 	// search then misses, was lost by something else.
-	both(&vScenario{Name: "store/T6-readd-compaction",
+	both(&vScenario{Name: "store/T8-readd-compaction",
 		Body: func(x *vSchedExec) {
 			st, err := vStoreOpen(x, vStoreCfg{Mem: 2, Thr: 1, Comp: 2, Tmpl: "vtm", Vec: "flat"})
 			if err != nil {
@@ -861,11 +917,17 @@ func vInitStoreScenarios() {
 	// with fresh templates and must find every document added before the call. One
 	// memtable, hence one segment (several segments would run into the shared-template
 	// finding). FlushThreshold = 1 byte: every add wakes the background flush worker.
-	for _, closing := range []bool{false, true} {
-		closing := closing
+	for variant := 0; variant < 3; variant++ {
+		closing := variant == 1
+		// D3: as D1, while the compaction worker makes one of its periodic checks (there is
+		// nothing to compact: the check itself must not disturb the flush)
+		withCheck := variant == 2
 		name := "store/D1-flush-ack-durable"
 		if closing {
 			name = "store/D2-close-ack-durable"
+		}
+		if withCheck {
+			name = "store/D3-flush-ack-durable-during-compaction-check"
 		}
 		both(&vScenario{Name: name,
 			Body: func(x *vSchedExec) {
@@ -889,6 +951,11 @@ func vInitStoreScenarios() {
 						return nil, err
 					})
 				})
+				if withCheck {
+					x.Spawn("B", func() {
+						x.Op("B", "TriggerCompaction", func() ([]uint32, error) { st.TriggerCompaction(); return nil, nil })
+					})
+				}
 				x.Join()
 				if x.free && !closing {
 					st.Close()
@@ -897,7 +964,7 @@ func vInitStoreScenarios() {
 			Judge: func(x *vSchedExec) [][3]string {
 				out := vStoreJudge(x, nil, vNoErr)
 				return append(out, vJudgeAcks(x)...)
-			}}, "C09")
+			}}, map[bool][]string{false: {"C09"}, true: {"C09", "C10"}}[withCheck]...)
 	}
 	// T6: explicit Flush || Add, then Search
 	both(&vScenario{Name: "store/T6-flush-add",
@@ -1158,7 +1225,7 @@ func vInitStoreScenarios() {
 func init() {
 	vRegister(&vCheck{
 		ID: "C11", Level: "model_checking", Engine: "schedmc",
-		Rule:        "Stateless exploration (DFS over choice prefixes, iterative preemption bounding 0,1,2[,3]; select choice, HNSW level and ticks as bounded environment deviations) of 3-thread scenarios on ONE shared instance per kind (flat, hnsw, ivf, pq, ivfpq, bm25, metadata, hybrid): S1 Add||Search||Remove, S2 Remove||Remove||Search, S3 Add||Flush||Search with a soft-deleted document, S4 WriteTo||Add||Remove, S5 restricted searches sharing pooled filters/heaps, S6 auto-id generation across instances; store: T1 Add||[Add;Add] with a one-document memtable, T2 Add||background flush||Search, T3 Search||compaction||Evict, T4 Add||Close, T5 Flush||background flush||Search. Oracle on EVERY complete interleaving: no panic, no deadlock, no spurious failure (only errors a sequential order could produce), visibility (a search returns every document whose add returned before it was called and whose removal had not been called before it returned; none whose removal returned before it was called or that was never added), auto ids distinct. Every 64th execution is replayed from its choice list and must reproduce trace and outcome. Data races: the same scenario bodies run free under the Go race detector (separate pass, reported in evidence). Non-trivial = distinct executions with at least one preemption or environment deviation. Further scenarios (see DESIGN A.2): S12-S18 (refused adds, Remove||Flush||Search, same-id adds, Flush||Flush||[Remove;Add], re-add while searching, auto ids next to explicit ids), T6 (re-add of a flushed id || compaction), D1/D2/O6.",
+		Rule:        "Stateless exploration (DFS over choice prefixes, iterative preemption bounding 0,1,2[,3]; select choice, HNSW level and ticks as bounded environment deviations) of 3-thread scenarios on ONE shared instance per kind (flat, hnsw, ivf, pq, ivfpq, bm25, metadata, hybrid): S1 Add||Search||Remove, S2 Remove||Remove||Search, S3 Add||Flush||Search with a soft-deleted document, S4 WriteTo||Add||Remove, S5 restricted searches sharing pooled filters/heaps, S6 auto-id generation across instances; store: T1 Add||[Add;Add] with a one-document memtable, T2 Add||background flush||Search, T3 Search||compaction||Evict, T4 Add||Close, T5 Flush||background flush||Search. Oracle on EVERY complete interleaving: no panic, no deadlock, no spurious failure (only errors a sequential order could produce), visibility (a search returns every document whose add returned before it was called and whose removal had not been called before it returned; none whose removal returned before it was called or that was never added), auto ids distinct. Every 64th execution is replayed from its choice list and must reproduce trace and outcome. Data races: the same scenario bodies run free under the Go race detector (separate pass, reported in evidence). Non-trivial = distinct executions with at least one preemption or environment deviation. Further scenarios (see DESIGN A.2): S12-S18 (refused adds, Remove||Flush||Search, same-id adds, Flush||Flush||[Remove;Add], re-add while searching, auto ids next to explicit ids), T8 (re-add of a flushed id || compaction), D3 (Flush acknowledged while a compaction check runs), S19 (concurrent cosine preprocessing), D1/D2/O6.",
 		Assumptions: []string{"scheduling points at lock acquisition, atomics, channel operations, WaitGroup.Wait, pool Get, file-system calls; atomics sequentially consistent", "2-3 threads x 1-2 operations, preemption bound 2 (quick) / 3 (thorough)", "the data-race clause is decided by the free-running race-detector pass over the same bodies, not by enumeration"},
 		Shards: func(tier string) []vShard {
 			sh := vSchedShards("C11", tier)
